@@ -91,7 +91,7 @@ def run(chk, tier, replay):
     rcommon.self_check(chk)
     modes = ("f", "m", "b")
     binary = common.build_harness("h_file")
-    n = 40 if tier == "quick" else 400
+    n = 40 if tier == "quick" else 2000
     cases = rcommon.gen_files(chk, (1, 2, 3, 4, 5), "valid", simulate=n, workers=8)
     cases += rcommon.gen_files(chk, (1, 2, 3, 4), "unsupported", workers=6)
     with rcommon.Fixtures(cases) as fx:
